@@ -108,89 +108,97 @@ func main() {
 			prng := rand.New(rand.NewSource(r.Seed + int64(w)))
 			for j := range jobs {
 				for n := j.lo; n < j.hi; n++ {
-					// the long-lived instance jumps between validator counts (this n, then a random one)
-					for _, nn := range []int{n, 1 + prng.Intn(maxN), 1 + prng.Intn(40)} {
-						pn = nn
-						pcur = prng.Uint32()
-						persistent.Reset(0)
-						rs++
-						F := (nn - 1) / 3
-						if persistent.N() != nn || persistent.F() != F || persistent.M() != nn-F {
-							fail("quorum-arithmetic-after-validator-set-change", fmt.Sprintf("long-lived instance re-initialised with %d validators reports N/F/M = %d/%d/%d, expected %d/%d/%d", nn, persistent.N(), persistent.F(), persistent.M(), nn, F, nn-F), map[string]any{"N": nn})
-						}
-						for _, v := range []byte{0, 1, 2, 7, 255} {
-							evals++
-							if int(persistent.GetPrimaryIndex(v)) != refPrimary(persistent.BlockIndex, v, nn) {
-								fail("primary-rotation-after-validator-set-change", fmt.Sprintf("N=%d h=%d v=%d: GetPrimaryIndex=%d expected %d", nn, persistent.BlockIndex, v, persistent.GetPrimaryIndex(v), refPrimary(persistent.BlockIndex, v, nn)), map[string]any{"N": nn})
+					func() {
+						// a panic of the library for some validator count is a violation ("always a valid index"), not a crash of the engine
+						defer func() {
+							if p := recover(); p != nil {
+								fail("library-panic", fmt.Sprintf("N=%d (or the long-lived instance's current count %d): the library panicked: %v", n, pn, p), map[string]any{"N": n, "long_lived_N": pn, "panic": fmt.Sprint(p)})
 							}
-						}
-					}
-					cur := uint32(0)
-					d := newInstance(n, &cur, pubs)
-					viaReset := n <= 64 || (uint64(n)*2654435761+uint64(r.Seed))%100 == 0
-					F := (n - 1) / 3
-					M := n - F
-					if d.N() != n || d.F() != F || d.M() != M {
-						fail("quorum-arithmetic", fmt.Sprintf("N=%d: library N/F/M = %d/%d/%d, expected %d/%d/%d", n, d.N(), d.F(), d.M(), n, F, M), map[string]any{"N": n})
-					}
-					// two quorums share more than F validators; a quorum never needs a faulty one
-					if 2*d.M()-d.N() <= d.F() || d.M() > d.N()-d.F() {
-						fail("quorum-intersection", fmt.Sprintf("N=%d F=%d M=%d", n, d.F(), d.M()), map[string]any{"N": n})
-					}
-					for _, h := range heights {
-						if viaReset {
-							cur = h - 1 // Reset/Start put the node at CurrentHeight()+1 (wraps for h=0)
-							d.Reset(0)
+						}()
+						// the long-lived instance jumps between validator counts (this n, then a random one)
+						for _, nn := range []int{n, 1 + prng.Intn(maxN), 1 + prng.Intn(40)} {
+							pn = nn
+							pcur = prng.Uint32()
+							persistent.Reset(0)
 							rs++
-							if d.BlockIndex != h {
-								fail("reset-height", fmt.Sprintf("Reset with ledger height %d gives BlockIndex %d", cur, d.BlockIndex), map[string]any{"N": n, "h": h})
+							F := (nn - 1) / 3
+							if persistent.N() != nn || persistent.F() != F || persistent.M() != nn-F {
+								fail("quorum-arithmetic-after-validator-set-change", fmt.Sprintf("long-lived instance re-initialised with %d validators reports N/F/M = %d/%d/%d, expected %d/%d/%d", nn, persistent.N(), persistent.F(), persistent.M(), nn, F, nn-F), map[string]any{"N": nn})
 							}
-							if int(d.PrimaryIndex) != refPrimary(h, 0, n) {
-								fail("primary-index-after-reset", fmt.Sprintf("N=%d h=%d: PrimaryIndex=%d expected %d", n, h, d.PrimaryIndex, refPrimary(h, 0, n)), map[string]any{"N": n, "h": h})
+							for _, v := range []byte{0, 1, 2, 7, 255} {
+								evals++
+								if int(persistent.GetPrimaryIndex(v)) != refPrimary(persistent.BlockIndex, v, nn) {
+									fail("primary-rotation-after-validator-set-change", fmt.Sprintf("N=%d h=%d v=%d: GetPrimaryIndex=%d expected %d", nn, persistent.BlockIndex, v, persistent.GetPrimaryIndex(v), refPrimary(persistent.BlockIndex, v, nn)), map[string]any{"N": nn})
+								}
 							}
-						} else {
-							d.BlockIndex = h
 						}
-						seen := map[uint]bool{}
-						for v := 0; v < 256; v++ {
-							p := d.GetPrimaryIndex(byte(v))
-							evals++
-							if int(p) != refPrimary(h, byte(v), n) || int(p) >= n {
-								fail("primary-rotation", fmt.Sprintf("N=%d h=%d v=%d: GetPrimaryIndex=%d expected %d", n, h, v, p, refPrimary(h, byte(v), n)), map[string]any{"N": n, "h": h, "v": v})
-								break
+						cur := uint32(0)
+						d := newInstance(n, &cur, pubs)
+						viaReset := n <= 64 || (uint64(n)*2654435761+uint64(r.Seed))%100 == 0
+						F := (n - 1) / 3
+						M := n - F
+						if d.N() != n || d.F() != F || d.M() != M {
+							fail("quorum-arithmetic", fmt.Sprintf("N=%d: library N/F/M = %d/%d/%d, expected %d/%d/%d", n, d.N(), d.F(), d.M(), n, F, M), map[string]any{"N": n})
+						}
+						// two quorums share more than F validators; a quorum never needs a faulty one
+						if 2*d.M()-d.N() <= d.F() || d.M() > d.N()-d.F() {
+							fail("quorum-intersection", fmt.Sprintf("N=%d F=%d M=%d", n, d.F(), d.M()), map[string]any{"N": n})
+						}
+						for _, h := range heights {
+							if viaReset {
+								cur = h - 1 // Reset/Start put the node at CurrentHeight()+1 (wraps for h=0)
+								d.Reset(0)
+								rs++
+								if d.BlockIndex != h {
+									fail("reset-height", fmt.Sprintf("Reset with ledger height %d gives BlockIndex %d", cur, d.BlockIndex), map[string]any{"N": n, "h": h})
+								}
+								if int(d.PrimaryIndex) != refPrimary(h, 0, n) {
+									fail("primary-index-after-reset", fmt.Sprintf("N=%d h=%d: PrimaryIndex=%d expected %d", n, h, d.PrimaryIndex, refPrimary(h, 0, n)), map[string]any{"N": n, "h": h})
+								}
+							} else {
+								d.BlockIndex = h
 							}
-							if v < n {
-								if seen[p] {
-									fail("primary-repeats", fmt.Sprintf("N=%d h=%d: validator %d is primary twice within %d consecutive views", n, h, p, min(n, 256)), map[string]any{"N": n, "h": h})
+							seen := map[uint]bool{}
+							for v := 0; v < 256; v++ {
+								p := d.GetPrimaryIndex(byte(v))
+								evals++
+								if int(p) != refPrimary(h, byte(v), n) || int(p) >= n {
+									fail("primary-rotation", fmt.Sprintf("N=%d h=%d v=%d: GetPrimaryIndex=%d expected %d", n, h, v, p, refPrimary(h, byte(v), n)), map[string]any{"N": n, "h": h, "v": v})
 									break
 								}
-								seen[p] = true
-							}
-						}
-						// over N consecutive heights (view 0) every validator is primary exactly once
-						if n <= 512 || (r.Thorough() && n%97 == 0) {
-							cnt := make([]byte, n)
-							for k := 0; k < n; k++ {
-								d.BlockIndex = h + uint32(k) // wraps at 2^32 like the ledger height does
-								cnt[d.GetPrimaryIndex(0)]++
-								evals++
-							}
-							// a window crossing the 2^32 wrap is a permutation only if 2^32 is a multiple of N
-							crosses := uint64(h)+uint64(n) > 1<<32
-							if !crosses || (uint64(1)<<32)%uint64(n) == 0 {
-								for i, c := range cnt {
-									if c != 1 {
-										fail("height-rotation", fmt.Sprintf("N=%d heights %d..+%d: validator %d is primary %d times", n, h, n-1, i, c), map[string]any{"N": n, "h": h})
+								if v < n {
+									if seen[p] {
+										fail("primary-repeats", fmt.Sprintf("N=%d h=%d: validator %d is primary twice within %d consecutive views", n, h, p, min(n, 256)), map[string]any{"N": n, "h": h})
 										break
 									}
+									seen[p] = true
 								}
 							}
-							d.BlockIndex = h
+							// over N consecutive heights (view 0) every validator is primary exactly once
+							if n <= 512 || (r.Thorough() && n%97 == 0) {
+								cnt := make([]byte, n)
+								for k := 0; k < n; k++ {
+									d.BlockIndex = h + uint32(k) // wraps at 2^32 like the ledger height does
+									cnt[d.GetPrimaryIndex(0)]++
+									evals++
+								}
+								// a window crossing the 2^32 wrap is a permutation only if 2^32 is a multiple of N
+								crosses := uint64(h)+uint64(n) > 1<<32
+								if !crosses || (uint64(1)<<32)%uint64(n) == 0 {
+									for i, c := range cnt {
+										if c != 1 {
+											fail("height-rotation", fmt.Sprintf("N=%d heights %d..+%d: validator %d is primary %d times", n, h, n-1, i, c), map[string]any{"N": n, "h": h})
+											break
+										}
+									}
+								}
+								d.BlockIndex = h
+							}
 						}
-					}
-					if n >= 2 {
-						r.Distinct(fmt.Sprintf("N=%d", n))
-					}
+						if n >= 2 {
+							r.Distinct(fmt.Sprintf("N=%d", n))
+						}
+					}()
 				}
 			}
 			mu.Lock()
